@@ -94,12 +94,16 @@ func makeReply(c *Case, p *peer.Peer, m *ref9p.Msg) *ref9p.Msg {
 type fail struct {
 	mu  sync.Mutex
 	err error
+	ch  chan struct{} // closed by the first set (when non-nil)
 }
 
 func (f *fail) set(format string, a ...interface{}) {
 	f.mu.Lock()
 	if f.err == nil {
 		f.err = fmt.Errorf(format, a...)
+		if f.ch != nil {
+			close(f.ch)
+		}
 	}
 	f.mu.Unlock()
 }
@@ -149,7 +153,7 @@ func run(c *Case) error {
 	if clnt.Dotu != c.Dotu {
 		return fmt.Errorf("Connect: dialect %v, want %v", clnt.Dotu, c.Dotu)
 	}
-	f := &fail{}
+	f := &fail{ch: make(chan struct{})}
 	var pending int64 // calls issued and not yet returned (for gathering)
 	var done int64
 	// free tags right after Connect: the reference for "tags are recycled"
@@ -431,6 +435,10 @@ func run(c *Case) error {
 	go func() { wg.Wait(); close(callersDone) }()
 	select {
 	case <-callersDone:
+	case <-f.ch:
+		// a violation was recorded; the peer stops answering, so the remaining
+		// callers are released by the Unmount on return
+		return f.get()
 	case <-time.After(4 * deadline):
 		if e := f.get(); e != nil {
 			return e
@@ -448,7 +456,7 @@ func run(c *Case) error {
 	if free < free0-16 {
 		return fmt.Errorf("only %d tags are free after every call returned, %d were free after Connect (at most 16 may be cached with request slots)", free, free0)
 	}
-	hx.Extra("max_gathered", maxOutstanding)
+	extraMax("max_gathered", maxOutstanding)
 	hx.ExtraAdd("batches_out_of_order", atomic.LoadInt64(&nontrivOOO))
 	hx.ExtraAdd("calls", atomic.LoadInt64(&done))
 	if atomic.LoadInt64(&nontrivOOO) > 0 {
@@ -476,6 +484,12 @@ func rootOr(root, alt *go9p.Fid) *go9p.Fid {
 func runTag(c *Case, p *peer.Peer, clnt *go9p.Clnt) error {
 	reqchan := make(chan *go9p.Req, 16)
 	tag := clnt.TagAlloc(reqchan)
+	freed := false
+	defer func() {
+		if !freed {
+			go clnt.TagFree(tag) // (failure paths) do not leave the Tag's processor behind
+		}
+	}()
 	fid := clnt.FidAlloc()
 	n := 0
 	type want struct {
@@ -575,6 +589,7 @@ func runTag(c *Case, p *peer.Peer, clnt *go9p.Clnt) error {
 	b, _ := json.Marshal(c)
 	hx.NonTrivial(b)
 	clnt.TagFree(tag)
+	freed = true
 	return nil
 }
 
@@ -598,11 +613,19 @@ func execute(test string, c *Case) error {
 	}
 	hx.Sample(test, c)
 	err := run(c)
-	if h, ok := err.(hangErr); ok {
-		if blocked := hx.BlockedInGo9p(); blocked != "" {
-			return fmt.Errorf("%s; goroutines blocked inside go9p:\n%s", string(h), blocked)
+	msg, waiting, isHang := "", 0, false
+	switch h := err.(type) {
+	case hangErr:
+		msg, isHang = string(h), true
+	case hang:
+		msg, waiting, isHang = h.msg, h.waiting, true
+	}
+	if isHang {
+		// (idle Tag processors and callers the case leaves unanswered on purpose are not culprits)
+		if blocked := culprits(hx.BlockedInGo9p(), waiting); blocked != "" {
+			return fmt.Errorf("%s; goroutines blocked inside go9p:\n%s", msg, blocked)
 		}
-		hx.Inconclusive(string(h))
+		hx.Inconclusive(msg)
 		return nil
 	}
 	return err
